@@ -391,8 +391,8 @@ func livenessPass(r *mc.Run, states []stateRec, cov map[string]any) {
 		nc, _ := ConfigByName(states[i].cfg)
 		for mode := 0; mode < 3; mode++ {
 			_ = nc
-			if mode == 2 && (nc.Cfg.Byz < 0 || !states[i].w.Info().ByzElect) {
-				continue // the active-adversary tail differs from the honest one only where it holds an old election certificate
+			if mode == 2 && nc.Cfg.Byz < 0 {
+				continue
 			}
 			w, ok := states[i].w.Clone(), true
 			// a prefix in which an honest node already committed has its block: after GST the
@@ -431,7 +431,7 @@ func livenessPass(r *mc.Run, states []stateRec, cov map[string]any) {
 				for _, op := range states[i].path {
 					names = append(names, AllScenarios[op].String())
 				}
-				mode := []string{"byzantine-silent", "byzantine-honest", "byzantine-usurps-with-replayed-election-certificate"}[m]
+				mode := []string{"byzantine-silent", "byzantine-honest", "byzantine-active"}[m]
 				r.Violation("C15:no-commit-within-8-rounds:"+mode, fmt.Sprintf("config %s: after adversarial prefix %v, %d synchronous rounds (%s) did not commit", states[i].cfg, names, rLive, mode),
 					map[string]any{"config": states[i].cfg, "path": states[i].path, "mode": m, "scenarios": names})
 			} else if n > worst {
@@ -494,6 +494,7 @@ func replayMain(r *mc.Run, trace bool) {
 		DevRounds uint64 `json:"dev_rounds"`
 		Rounds    uint64 `json:"rounds"`
 		Mode      *int   `json:"mode"`
+		Silent    bool   `json:"silent_byz"`
 	}
 	if err := r.LoadReplay(&rp); err != nil {
 		fmt.Println("cannot load replay:", err)
@@ -515,7 +516,7 @@ func replayMain(r *mc.Run, trace bool) {
 				}
 				w, _ = RunDev(nc.Cfg, c, rp.Rounds, trace && i == 0)
 			} else {
-				w, _ = RunDevOpt(nc.Cfg, c, DevOpt{MaxRounds: rp.DevRounds + 64, DevRounds: rp.DevRounds, TailRounds: tailRoundsFlag(), Trace: trace && i == 0})
+				w, _ = RunDevOpt(nc.Cfg, c, DevOpt{MaxRounds: rp.DevRounds + 64, DevRounds: rp.DevRounds, TailRounds: tailRoundsFlag(), Trace: trace && i == 0, SilentByz: rp.Silent})
 			}
 			if trace && i == 0 {
 				fmt.Println(strings.Join(w.Trace, "\n"))
